@@ -100,6 +100,7 @@ class Ctx:
         """cond: z3 Bool.  Return a Python bool, recording the fork."""
         self.tick()
         k = len(self.taken)
+        forked = True
         if k < len(self.decisions):
             d = self.decisions[k]
         else:
@@ -109,17 +110,19 @@ class Ctx:
                 self.pending.append(self.taken + [False])
                 d = True
             elif t:
-                d = True
+                d, forked = True, False
             elif f:
-                d = False
+                d, forked = False, False
             else:
                 raise PathInfeasible()
         self.taken.append(d)
         c = cond if d else z3.Not(cond)
-        # a decision taken inside a guard context only holds under the guards
         gt = self.guard_terms()
-        if gt:
-            c = z3.Implies(z3.And(*gt), c)
+        if gt and not forked:
+            # decided under the current guards only: nothing to add (pc and guards already imply it)
+            return d
+        # a genuine fork: the two paths pc+c and pc+not c together cover every world, also those in
+        # which the current guards are false (there the guarded effects are no-ops on either path)
         self.pc.append(c)
         self._solver.add(c)
         return d
